@@ -442,6 +442,36 @@ def unitForms : List (String × List Expr) :=
    ("velocity", [Expr.var "@Transport/conti_velocity", Expr.var "in_profile.velocity", Expr.var "velocity"])]
 def unitSpec : Spec := ⟨unitMembers, unitRules, fun _ => unitForms, 150, 25⟩
 
+/-! the unit group on a ROLL PASS: the length is the contact length (`exit_point − entry_point`, `exit_point = 0` by
+default), the velocity is taken from the roll — `roll.working_velocity · cos(roll.neutral_angle)` whenever the roll HAS a
+neutral angle: explicitly set, derivable (from a supplied neutral point; not read yet), or already cached by an earlier
+read — and `roll.working_velocity` when it has none.  The roll is another object: its quantities are parameters. -/
+def passExt (wv na : Ext) : List (String × Ext) :=
+  [("entry_point", .set), ("in_profile", .missing .attr), ("roll", .avail), ("roll.working_velocity", wv),
+   ("roll.neutral_angle", na)]
+/-- the roll has a neutral angle (set / derivable, not yet read / cached) × it has a working velocity or not × two-, three-roll pass -/
+def passUnitNeutralWorlds : List GW :=
+  [Ext.avail, .missing .attr].flatMap fun wv => [Ext.set, .avail, .cached].flatMap fun na =>
+    [twoRollPass (passExt wv na), threeRollPass (passExt wv na)]
+/-- the roll has no neutral angle -/
+def passUnitWorlds : List GW :=
+  [Ext.avail, .missing .attr].flatMap fun wv =>
+    [twoRollPass (passExt wv (.missing .attr)), threeRollPass (passExt wv (.missing .attr))]
+def passUnitRules : List (String × List String) :=
+  [("exit_point", []), ("length", ["entry_point", "exit_point"]), ("duration", ["length", "velocity"]),
+   ("velocity", ["roll.working_velocity"])]
+def ep0 : Expr := .add (.neg (.var "entry_point")) (.nat 0)
+/-- the pass velocity in the neutral plane -/
+def pvN : Expr := .mul (.var "roll.working_velocity") (.cos (.var "roll.neutral_angle"))
+def passUnitFormsWith (v : Expr) : List (String × List Expr) :=
+  [("length", [ep0, .var "length"]),
+   ("duration", [.div ep0 v, .div (.var "length") v, .div ep0 (.var "velocity"), .div (.var "length") (.var "velocity"),
+                 .var "duration"]),
+   ("velocity", [v, .var "velocity"])]
+/-- with a neutral angle the ONLY derived form of the velocity carries the factor `cos(roll.neutral_angle)` -/
+def passUnitNeutralSpec : Spec := ⟨unitMembers, passUnitRules, fun _ => passUnitFormsWith pvN, 150, 25⟩
+def passUnitSpec : Spec := ⟨unitMembers, passUnitRules, fun _ => passUnitFormsWith (.var "roll.working_velocity"), 150, 25⟩
+
 /-! ## the finite control part — every world × every subset × every read order, evaluated by the kernel -/
 
 set_option maxRecDepth 1000000 in
@@ -465,6 +495,38 @@ set_option maxRecDepth 1000000 in
 theorem target_control : checkAll targetSpec FUEL targetWorlds = true := by decide +kernel
 set_option maxRecDepth 1000000 in
 theorem unit_control : checkAll unitSpec FUEL unitWorlds = true := by decide +kernel
+
+set_option maxRecDepth 1000000 in
+theorem pass_unit_neutral_control : checkAll passUnitNeutralSpec FUEL passUnitNeutralWorlds = true := by decide +kernel
+set_option maxRecDepth 1000000 in
+theorem pass_unit_control : checkAll passUnitSpec FUEL passUnitWorlds = true := by decide +kernel
+
+/-! ## a hook given explicitly as `None` is not supplied (`Hook.__get__` skips a `None` in `__dict__`)
+
+every world × every listed hook given as `None` × every subset of the other members × every read order: the reads give
+exactly the results of the object that does not mention the hook (`Mutual.checkNone`).  Listed are hooks the core tests by
+VALUE (`has_value`) or not at all; for hooks tested for PRESENCE (`has_set`, `has_set_or_cached`: the radius pair, the pipe
+pair, `neutral_angle`, `target_width`, …) a `None` counts as "explicitly set" and the statement is false (examples below). -/
+set_option maxRecDepth 1000000 in
+theorem vel_none_control : checkNone velMembers FUEL (velWorlds ++ velNeutralWorlds) velMembers = true := by decide +kernel
+-- … the quantities the velocities are derived from, on the roll of a pass
+set_option maxRecDepth 1000000 in
+theorem vel_side_none_control :
+    checkNone velMembers FUEL (passRollVelWorlds ++ velNeutralWorlds) ["working_radius", "neutral_point"] = true := by
+  decide +kernel
+set_option maxRecDepth 1000000 in
+theorem neutral_none_control :
+    checkNone neutralMembers FUEL neutralWorlds ["neutral_point", "working_radius", "working_velocity"] = true := by
+  decide +kernel
+set_option maxRecDepth 1000000 in
+theorem unit_none_control : checkNone unitMembers FUEL unitWorlds ["duration"] = true := by decide +kernel
+set_option maxRecDepth 1000000 in
+theorem pass_unit_none_control : checkNone unitMembers FUEL passUnitWorlds ["duration", "exit_point"] = true := by
+  decide +kernel
+set_option maxRecDepth 1000000 in
+theorem target_none_control :
+    checkNone targetMembers FUEL [twoRollPass [("usable_width", .avail), ("usable_cross_section.area", .avail), (area2, .avail)]]
+      ["target_filling_ratio", "target_cross_section_area"] = true := by decide +kernel
 
 set_option linter.unusedSimpArgs false
 set_option linter.unnecessarySeqFocus false
@@ -665,6 +727,24 @@ theorem unit_forms_sound (ρ : String → ℝ) (h : UnitConsistent ρ) :
     e1, e2, e3, h.length]
   and_intros <;> first | trivial | field_simp
 
+/-- the unit group on a roll pass whose velocity comes from the roll (`v` = the value the roll provides: working velocity
+times the cosine of the neutral angle, or the working velocity when the roll has no neutral angle); the length is the
+contact length -/
+structure PassUnitConsistent (ρ : String → ℝ) (v : ℝ) : Prop where
+  velocity_pos : 0 < ρ "velocity"
+  length : ρ "length" = ρ "velocity" * ρ "duration"
+  contact : ρ "length" = -ρ "entry_point"
+  pass : ρ "velocity" = v
+
+theorem pass_unit_forms_sound (ρ : String → ℝ) (v : Expr) (h : PassUnitConsistent ρ (eval ρ v)) :
+    ∀ p ∈ passUnitFormsWith v, ∀ e ∈ p.2, eval ρ e = ρ p.1 := by
+  have hv := h.velocity_pos.ne'
+  have e1 : ρ "entry_point" = -(ρ "velocity" * ρ "duration") := by rw [← h.length, h.contact]; ring
+  have e2 := h.pass.symm
+  simp only [passUnitFormsWith, ep0, List.forall_mem_cons, List.not_mem_nil, IsEmpty.forall_iff, implies_true, and_true, eval,
+    PyNum.nat_real, e1, e2, h.length]
+  and_intros <;> push_cast <;> first | trivial | (field_simp; done) | (ring1) | (field_simp; ring1)
+
 /-! ## the group theorems -/
 
 /-- roll `nominal_radius` / `nominal_diameter` (stand-alone roll and roll of a pass) -/
@@ -721,6 +801,52 @@ theorem unit_consistent (ρ : String → ℝ) (h : UnitConsistent ρ) :
     GroupConsistent unitSpec FUEL unitWorlds ρ (fun _ => True) :=
   groupConsistent_of unit_control (fun _ _ _ => unit_forms_sound ρ h)
 
+/-- unit `length` / `duration` / `velocity` on a two- / three-roll pass whose roll HAS a neutral angle — explicitly set,
+derivable from a supplied neutral point and not read yet, or cached by an earlier read — : the derived pass velocity is
+`roll.working_velocity · cos(roll.neutral_angle)` in every one of these situations and every read order -/
+theorem pass_unit_neutral_consistent (ρ : String → ℝ)
+    (h : PassUnitConsistent ρ (ρ "roll.working_velocity" * Real.cos (ρ "roll.neutral_angle"))) :
+    GroupConsistent passUnitNeutralSpec FUEL passUnitNeutralWorlds ρ (fun _ => True) :=
+  groupConsistent_of pass_unit_neutral_control (fun _ _ _ => pass_unit_forms_sound ρ pvN
+    (by simpa only [pvN, eval, PyNum.cos_real] using h))
+
+/-- … whose roll has no neutral angle: the pass velocity is the roll's working velocity (`exit_point = 0`) -/
+theorem pass_unit_consistent (ρ : String → ℝ) (h : PassUnitConsistent ρ (ρ "roll.working_velocity")) :
+    GroupConsistent passUnitSpec FUEL passUnitWorlds ρ (fun _ => True) :=
+  groupConsistent_of pass_unit_control (fun _ _ _ => pass_unit_forms_sound ρ (.var "roll.working_velocity")
+    (by simpa only [eval] using h))
+
+/-! ## given as `None` = not supplied -/
+
+/-- roll `rotational_frequency` / `surface_velocity` / `working_velocity` (stand-alone roll, roll of a pass with / without
+pass velocity, with / without neutral angle): a member given as `None` (`Roll(surface_velocity=s, working_velocity=None)`)
+changes nothing — every read gives what it gives on the roll that does not mention the member -/
+theorem vel_none_is_not_supplied : NoneIsAbsent velMembers FUEL (velWorlds ++ velNeutralWorlds) velMembers :=
+  noneIsAbsent_of vel_none_control
+theorem vel_side_none_is_not_supplied :
+    NoneIsAbsent velMembers FUEL (passRollVelWorlds ++ velNeutralWorlds) ["working_radius", "neutral_point"] :=
+  noneIsAbsent_of vel_side_none_control
+theorem neutral_none_is_not_supplied :
+    NoneIsAbsent neutralMembers FUEL neutralWorlds ["neutral_point", "working_radius", "working_velocity"] :=
+  noneIsAbsent_of neutral_none_control
+theorem unit_none_is_not_supplied : NoneIsAbsent unitMembers FUEL unitWorlds ["duration"] :=
+  noneIsAbsent_of unit_none_control
+theorem pass_unit_none_is_not_supplied : NoneIsAbsent unitMembers FUEL passUnitWorlds ["duration", "exit_point"] :=
+  noneIsAbsent_of pass_unit_none_control
+theorem target_none_is_not_supplied :
+    NoneIsAbsent targetMembers FUEL [twoRollPass [("usable_width", .avail), ("usable_cross_section.area", .avail), (area2, .avail)]]
+      ["target_filling_ratio", "target_cross_section_area"] :=
+  noneIsAbsent_of target_none_control
+
+-- hooks tested for PRESENCE: both members of the radius pair given as `None` — the two implementations call each other
+-- until the fuel is used up (observed on the implementation: RecursionError, converted to AttributeError)
+set_option maxRecDepth 1000000 in
+example : (scenarioN (roll [gf] []).world FUEL [] ["nominal_radius", "nominal_diameter"] ["nominal_radius"]).1.map (·.res)
+    = [.err .fuel] := by decide +kernel
+-- … `target_width = None`: the default filling ratio no longer applies
+set_option maxRecDepth 1000000 in
+example : checkNone targetMembers FUEL targetWorlds ["target_width"] = false := by decide +kernel
+
 /-! ## too little supplied: AttributeError in bounded time -/
 
 /-- every group, every world, every subset, every read order, every fuel ≥ 400: each read finishes within 150 machine
@@ -736,7 +862,9 @@ theorem insufficient_is_attribute_error_bounded :
     InsufficientBounded neutralWrSpec FUEL neutralWrWorlds 150 25 ∧
     InsufficientBounded pipeSpec FUEL pipeWorlds 150 25 ∧
     InsufficientBounded targetSpec FUEL targetWorlds 150 25 ∧
-    InsufficientBounded unitSpec FUEL unitWorlds 150 25 :=
+    InsufficientBounded unitSpec FUEL unitWorlds 150 25 ∧
+    InsufficientBounded passUnitNeutralSpec FUEL passUnitNeutralWorlds 150 25 ∧
+    InsufficientBounded passUnitSpec FUEL passUnitWorlds 150 25 :=
   ⟨insufficientBounded_of radius_control (le_refl _) (le_refl _),
    insufficientBounded_of radius_side_control (le_refl _) (le_refl _),
    insufficientBounded_of vel_control (le_refl _) (le_refl _),
@@ -746,7 +874,9 @@ theorem insufficient_is_attribute_error_bounded :
    insufficientBounded_of neutral_wr_control (le_refl _) (le_refl _),
    insufficientBounded_of pipe_control (le_refl _) (le_refl _),
    insufficientBounded_of target_control (le_refl _) (le_refl _),
-   insufficientBounded_of unit_control (le_refl _) (le_refl _)⟩
+   insufficientBounded_of unit_control (le_refl _) (le_refl _),
+   insufficientBounded_of pass_unit_neutral_control (le_refl _) (le_refl _),
+   insufficientBounded_of pass_unit_control (le_refl _) (le_refl _)⟩
 
 -- the empty subset really is insufficient (non-vacuity): nothing is derivable, e.g. on a bare roll
 set_option maxRecDepth 100000 in
@@ -844,6 +974,17 @@ theorem unit_roundtrip (ρ : String → ℝ) (hv : ρ "velocity" ≠ 0) :
     eval (upd ρ "length" (eval ρ unit_length_e)) transport_duration_e = ρ "duration" := by
   refine ⟨?_, ?_, ?_⟩ <;> simp [unit_duration_e, unit_length_e, transport_duration_e, eval, upd] <;> field_simp
 
+/-- over TWO objects: the pass velocity derived from the roll's working velocity and neutral angle
+(`SymmetricRollPass.velocity`, read with the roll's values), supplied as the velocity of a fresh pass whose roll has the same
+neutral angle, gives back the working velocity (`BaseRollPass.Roll.working_velocity`) -/
+theorem pass_velocity_roundtrip (ρ : String → ℝ) (hc : Real.cos (ρ "neutral_angle") ≠ 0) :
+    eval (upd ρ "roll_pass.velocity"
+        (eval (fun n => if n = "roll.working_velocity" then ρ "working_velocity"
+                        else if n = "roll.neutral_angle" then ρ "neutral_angle" else ρ n) srp_velocity_e))
+      rproll_working_velocity_e = ρ "working_velocity" := by
+  simp [srp_velocity_e, rproll_working_velocity_e, eval, upd]
+  field_simp
+
 /-! ## non-vacuity: assignments satisfying the hypotheses -/
 
 example : RadiusConsistent (fun n => if n = "nominal_diameter" then 4 else 2) := by
@@ -874,6 +1015,15 @@ example : VelNeutralConsistent (fun n => if n = "nominal_radius" then 2
     else if n = "roll_pass.velocity" then 1 * (2 - 1) * 2 * Real.pi else 0) := by
   constructor <;> simp +decide <;> norm_num
 
+example : PassUnitConsistent (fun n => if n = "length" then 6 else if n = "entry_point" then -6
+    else if n = "duration" then 3 else if n = "roll.neutral_angle" then 0 else 2)
+    ((fun n => if n = "length" then (6 : ℝ) else if n = "entry_point" then -6
+    else if n = "duration" then 3 else if n = "roll.neutral_angle" then 0 else 2) "roll.working_velocity" * Real.cos 0) := by
+  constructor <;> simp +decide <;> norm_num
+-- the roll has a neutral angle it has not been asked for yet (derivable from the neutral point): the velocity carries the cosine
+set_option maxRecDepth 100000 in
+example : ((scenario (twoRollPass (passExt .avail .avail)).world FUEL [] ["velocity"]).1.map (·.res)) = [.val pvN] := by
+  decide +kernel
 example : NeutralWrConsistent (fun n => if n = "working_radius" then 1 else 0) := by
   constructor <;> simp +decide <;> positivity
 example : VelWrConsistent (fun n => if n = "nominal_radius" then 2 else if n = "working_radius" then 3
